@@ -62,24 +62,29 @@ def rule_state(c, prog):
                 c.violation(R, f"{fld}|assign|unguarded", f"collect_type_info assigns `{fname}` of the shared per-class PropInfo unconditionally from the current instance's spelling: the last instance visited wins. With Part{{BrickColor}} followed by Part{{Color3uint8}} the established migration is overwritten with None and serialization fails with a type mismatch, while the reverse sibling order succeeds", m["sp"], instance=inst)
         else:
             c.violation(R, f"{fld}|{m['how']}", f"collect_type_info takes `&mut {fld}` in an unclassified way", m["sp"])
-    # insert-if-absent guard on properties.insert
+    # insert-if-absent guard on properties.insert, keyed by the canonical name
+    roles = cti_roles(prog, fn)
     ok = False
-    for n in core.walk_fn(fn):
-        if n.get("k") == "If":
-            cnd = core.strip(n["c"])
-            if cnd.get("k") == "Unary" and cnd["op"] == "!":
-                e = core.strip(cnd["e"])
-                if e.get("k") == "MethodCall" and e["m"] == "contains_key" and core.place_root(e["recv"]) == ("type_info", ["properties"]) and core.strip(e["args"][0]).get("name") == "canonical_name":
-                    for x in core.walk(n["t"]):
-                        if x.get("k") == "MethodCall" and x["m"] == "insert" and core.place_root(x["recv"]) == ("type_info", ["properties"]) and core.strip(x["args"][0]).get("name") == "canonical_name":
-                            ok = True
-    if ok:
+    if roles["insert"] is not None and roles["key"] is not None:
+        for n in core.walk_fn(fn):
+            if n.get("k") == "If" and any(x is roles["insert"] for x in core.walk(n["t"])):
+                cnd = core.strip(n["c"])
+                if cnd.get("k") == "Unary" and cnd["op"] == "!":
+                    e = core.strip(cnd["e"])
+                    if e.get("k") == "MethodCall" and e["m"] == "contains_key" and core.place_root_lid(e["recv"]) == (roles["ti"], ["properties"]) and core.place_root_lid(e["args"][0])[0] == roles["key"]:
+                        ok = True
+            # entry API: `.entry(key).or_insert_with(..)` is insert-if-absent as well
+        if not ok:
+            ok = False
+    key_ok = ok and roles["keysrc"] and roles["keysrc"] <= {"canonical", "own-name"} and "canonical" in roles["keysrc"]
+    if key_ok:
         c.ok(R, "properties:insert-if-absent(canonical_name)")
     else:
-        c.violation(R, "properties|guard", "collect_type_info no longer inserts the PropInfo under `!type_info.properties.contains_key(&canonical_name)` keyed by the canonical name", fn.sp, instance="properties:insert-if-absent(canonical_name)")
+        c.violation(R, "properties|guard", f"collect_type_info no longer inserts the PropInfo under `!<type info>.properties.contains_key(&key)` with the key being the canonical name (guard on the same map and key: {ok}; the key takes its values from {sorted(roles['keysrc'])})", fn.sp, instance="properties:insert-if-absent(canonical_name)")
     # a `continue`/`return Ok` inside the per-property loop must only skip the current property
     fl = [core.as_for(n) for n in core.walk_fn(fn) if core.as_for(n) is not None and n.get("k") != "DropTemps"]
-    outer = [f for f in fl if core.place_root(f[1]) == ("instance", ["properties"])]
+    inst_lid = common.param_lid_by_type(fn, lambda t: t.lstrip("&").replace("'dom ", "").strip().endswith("instance::Instance"))
+    outer = [f for f in fl if core.place_root_lid(f[1])[0] == inst_lid and "properties" in core.place_root_lid(f[1])[1]]
     bad_ret = []
     if outer:
         for x in core.walk(outer[0][2]):
@@ -91,6 +96,57 @@ def rule_state(c, prog):
         c.ok(R, "loop:no-early-success-return")
     else:
         c.violation(R, "loop|early-ok", f"collect_type_info returns Ok from inside the per-property loop ({bad_ret}): the remaining properties of that instance are never registered (columns dropped depending on map iteration order)", fn.sp, instance="loop:no-early-success-return")
+
+
+def cti_roles(prog, fn):
+    """roles of the locals of collect_type_info, by data flow:
+       key   — the local used as the key of `<type info>.properties.insert(key, PropInfo{..})`
+       ti    — the local whose `.properties` map that is
+       sty   — the local handed to Type::from_rbx_type (the serialized value type of the column)
+       keysrc— how `key` gets its values: set of 'canonical' (a `.canonical.name` of looked-up descriptors) /
+               'own-name' (the property name being visited) / 'other:<expr>'"""
+    roles = {"key": None, "ti": None, "sty": None, "keysrc": set(), "insert": None}
+    loops = [core.as_for(n) for n in core.walk_fn(fn, into_closures=False) if core.as_for(n) is not None and n.get("k") != "DropTemps"]
+    prop_lids = set()
+    for fl in loops:
+        if "properties" in core.place_root(fl[1])[1]:
+            stack = [fl[0]]
+            while stack:
+                x = stack.pop()
+                if isinstance(x, dict):
+                    if x.get("k") == "Binding":
+                        prop_lids.add(x["lid"])
+                    stack.extend(v for v in x.values() if isinstance(v, (dict, list)))
+                elif isinstance(x, list):
+                    stack.extend(x)
+    for n in core.walk_fn(fn):
+        if n.get("k") == "MethodCall" and n["m"] == "insert" and len(n["args"]) == 2 and core.place_root(n["recv"])[1][-1:] == ["properties"]:
+            v = core.strip(n["args"][1])
+            if v.get("k") == "Struct" and (v.get("def") or "").endswith("PropInfo"):
+                roles["insert"] = n
+                roles["key"] = core.place_root_lid(n["args"][0])[0]
+                roles["ti"] = core.place_root_lid(n["recv"])[0]
+        if n.get("k") == "Call" and (core.callee(n) or "").endswith("Type::from_rbx_type") and n["args"]:
+            roles["sty"] = core.place_root_lid(n["args"][0])[0]
+    k = roles["key"]
+    if k is not None:
+        srcs = []
+        for st in core.walk_lets(fn.body):
+            if st["pat"].get("lid") == k and "init" in st:
+                srcs.append(st["init"])
+        for n in core.walk_fn(fn):
+            if n.get("k") == "Assign" and core.strip(n["l"]).get("lid") == k:
+                srcs.append(n["r"])
+        for e in srcs:
+            lid, path = core.place_root_lid(e)
+            names = [p for p in path if not p.startswith(".") and p != "?"]
+            if "canonical" in names and names[-1:] == ["name"]:
+                roles["keysrc"].add("canonical")
+            elif lid in prop_lids:
+                roles["keysrc"].add("own-name")
+            else:
+                roles["keysrc"].add("other:" + core.fingerprint(e, 4))
+    return roles
 
 
 def C08_contains(t, sub):
@@ -217,19 +273,39 @@ def rule_default(c, prog):
     R = "C08.default"
     c.rule(R, "a missing property is filled from database.find_default_property(class, canonical name), else from fallback_default_value(serialized type); never from another instance")
     fn = common.find_fn(prog, r"serializer::state::SerializerState.*::collect_type_info$")
+    roles = cti_roles(prog, fn)
     fd = [n for n in core.walk_fn(fn) if n.get("k") == "MethodCall" and n["m"] == "find_default_property"]
-    ok = len(fd) == 1 and core.strip(fd[0]["args"][1]).get("name") == "canonical_name" and core.strip(fd[0]["args"][0]).get("name") == "class"
+    # the class argument: the closure parameter of `<type info>.class_descriptor.and_then(|class| ..)`
+    cls_ok = False
+    if len(fd) == 1:
+        a0 = core.strip(fd[0]["args"][0])
+        for n in core.walk_fn(fn):
+            if n.get("k") == "MethodCall" and n["m"] in ("and_then", "map") and core.place_root_lid(n["recv"]) == (roles["ti"], ["class_descriptor"]) and n["args"]:
+                clo = core.strip(n["args"][0])
+                if clo.get("k") == "Closure" and any(x is fd[0] for x in core.walk(clo["body"])):
+                    pl = []
+                    stack = [clo.get("params")]
+                    while stack:
+                        x = stack.pop()
+                        if isinstance(x, dict):
+                            if x.get("k") == "Binding":
+                                pl.append(x["lid"])
+                            stack.extend(v for v in x.values() if isinstance(v, (dict, list)))
+                        elif isinstance(x, list):
+                            stack.extend(x)
+                    cls_ok = a0.get("lid") in pl
+    ok = len(fd) == 1 and roles["key"] is not None and core.place_root_lid(fd[0]["args"][1])[0] == roles["key"] and cls_ok
     if ok:
         c.ok(R, "db-default:canonical-name")
     else:
         got = core.fingerprint(fd[0]["args"][1], 3) if fd else None
-        c.violation(R, "db-default|key", f"find_default_property is looked up with `{got}`; database defaults are keyed by the canonical name, so a column first met under an alias or legacy spelling would fall back to the type's neutral value and the result would depend on sibling order", fn.sp, instance="db-default:canonical-name")
+        c.violation(R, "db-default|key", f"find_default_property is looked up with `{got}`; database defaults are keyed by the canonical name (the key the column is filed under), so a column first met under an alias or legacy spelling would fall back to the type's neutral value and the result would depend on sibling order", fn.sp, instance="db-default:canonical-name")
     fb = [n for n in core.walk_fn(fn) if n.get("k") == "Call" and (core.callee(n) or "").endswith("fallback_default_value")]
-    ok = len(fb) == 1 and core.strip(fb[0]["args"][0]).get("name") == "serialized_ty"
+    ok = len(fb) == 1 and roles["sty"] is not None and core.place_root_lid(fb[0]["args"][0])[0] == roles["sty"]
     if ok:
         c.ok(R, "fallback:serialized-type")
     else:
-        c.violation(R, "fallback|arg", "fallback_default_value is no longer called with the serialized type", fn.sp, instance="fallback:serialized-type")
+        c.violation(R, "fallback|arg", "fallback_default_value is no longer called with the serialized type (the type the column's wire type is derived from)", fn.sp, instance="fallback:serialized-type")
     # order: db default .or_else(fallback)
     chain = [n["m"] for n in core.walk_fn(fn) if n.get("k") == "MethodCall" and n["m"] in ("and_then", "or_else", "ok_or_else") and any(x in fd or x in fb for x in core.walk(n))]
     if "or_else" in chain:
@@ -237,8 +313,7 @@ def rule_default(c, prog):
     else:
         c.violation(R, "order|chain", f"default lookup chain is {chain}; expected database default `.or_else` fallback", fn.sp, instance="order:db-then-fallback")
     # the class used for the lookup is this type's descriptor
-    cd = [n for n in core.walk_fn(fn) if n.get("k") == "MethodCall" and n["m"] == "and_then" and core.place_root(n["recv"]) == ("type_info", ["class_descriptor"])]
-    if cd:
+    if cls_ok:
         c.ok(R, "class:own-descriptor")
     else:
         c.violation(R, "class|descriptor", "the default is not looked up through type_info.class_descriptor", fn.sp, instance="class:own-descriptor")
@@ -249,24 +324,40 @@ def rule_col(c, prog):
     c.rule(R, "one PROP chunk per PropInfo; one value per element of type_info.instances in INST order")
     fn = common.find_fn(prog, r"serializer::state::SerializerState.*::serialize_properties$")
     fl = [core.as_for(n) for n in core.walk_fn(fn, into_closures=False) if core.as_for(n) is not None and n.get("k") != "DropTemps"]
-    roots = [core.place_root(f[1]) for f in fl[:2]]
-    if roots[:2] == [("self", ["type_infos", "values"]), ("type_info", ["properties"])]:
+    self_lid = fn.params[0]["lid"]
+    ok_loops = False
+    ti_lids = set()
+    if len(fl) >= 2:
+        l0, p0 = core.place_root_lid(fl[0][1])
+        stack = [fl[0][0]]
+        while stack:
+            x = stack.pop()
+            if isinstance(x, dict):
+                if x.get("k") == "Binding":
+                    ti_lids.add(x["lid"])
+                stack.extend(v for v in x.values() if isinstance(v, (dict, list)))
+            elif isinstance(x, list):
+                stack.extend(x)
+        l1, p1 = core.place_root_lid(fl[1][1])
+        ok_loops = l0 == self_lid and [q for q in p0 if not q.startswith(".")][:1] == ["type_infos"] and l1 in ti_lids and [q for q in p1 if not q.startswith(".")] == ["properties"]
+    if ok_loops:
         c.ok(R, "loops:class-then-property")
     else:
-        c.violation(R, "loops|shape", f"serialize_properties iterates {roots[:2]}; expected every class then every PropInfo of that class", fn.sp, instance="loops:class-then-property")
-    vals = None
-    for st in core.walk_lets(fn.body):
-        if st["pat"].get("name") == "values" and "init" in st:
-            vals = st["init"]
+        c.violation(R, "loops|shape", "serialize_properties does not iterate every class (self.type_infos) and, inside, every PropInfo of that class", fn.sp, instance="loops:class-then-property")
+    # the column's values: one per element of <class>.instances, in order — the iterator the encoder arms consume
     ok = False
-    if vals is not None:
-        r, p = core.place_root(vals)
+    for st in core.walk_lets(fn.body):
+        if "init" not in st or st["pat"].get("k") != "Binding":
+            continue
+        lid, p = core.place_root_lid(st["init"])
+        fields = [x for x in p if not x.startswith(".")]
         meths = [x for x in p if x.startswith(".")]
-        ok = (r, [x for x in p if not x.startswith(".")]) == ("type_info", ["instances"]) and meths[:1] == [".iter()"] and ".enumerate()" in meths and not any(m in meths for m in (".rev()", ".skip()", ".take()", ".filter()", ".step_by()", ".chain()"))
+        if lid in ti_lids and fields == ["instances"] and ".enumerate()" in meths:
+            ok = meths[:1] in ([".iter()"], [".into_iter()"]) and not any(m in meths for m in (".rev()", ".skip()", ".take()", ".filter()", ".step_by()", ".chain()", ".filter_map()", ".take_while()", ".skip_while()"))
     if ok:
         c.ok(R, "values:one-per-instance-in-order")
     else:
-        c.violation(R, "values|source", "the column values are not `type_info.instances.iter().map(..).map(..).enumerate()` (one value per instance, INST order)", fn.sp, instance="values:one-per-instance-in-order")
+        c.violation(R, "values|source", "the column values are not `<class>.instances.iter().map(..).enumerate()` (one value per instance, INST order)", fn.sp, instance="values:one-per-instance-in-order")
 
 
 def run(c, prog):
